@@ -8,9 +8,19 @@ python3 gen_dispatch.py
 coq_makefile -f _CoqProject -o Makefile.coq >/dev/null 2>&1
 timeout 3000 make -f Makefile.coq -j16 >build.log 2>&1 || { tail -40 build.log; exit 1; }
 mkdir -p extract/out ../bin
-cd extract/out
-timeout 600 coqc -Q ../../theories BFG ../Extract.v -o Extract.vo >/dev/null 2>&1 || timeout 600 coqc -Q ../../theories BFG ../Extract.v
-cp ../driver.ml .
-ocamlfind ocamlopt -w -a -O2 model.mli model.ml driver.ml -o ../../../bin/model 2>/dev/null || ocamlfind ocamlopt -w -a model.mli model.ml driver.ml -o ../../../bin/model
-gcc -O1 -o ../../../bin/argvrec ../../../harness/csrc/argvrec.c
+# the binaries are rebuilt only when something they are made from is newer, and are moved into place atomically:
+# checks of different properties may run at the same time and must never see a half-written bin/model or bin/argvrec
+if [ ! -x ../bin/model ] || [ -n "$(find theories -name '*.vo' -newer ../bin/model | head -1)" ] \
+   || [ extract/Extract.v -nt ../bin/model ] || [ extract/driver.ml -nt ../bin/model ]; then
+  cd extract/out
+  timeout 600 coqc -Q ../../theories BFG ../Extract.v -o Extract.vo >/dev/null 2>&1 || timeout 600 coqc -Q ../../theories BFG ../Extract.v
+  cp ../driver.ml .
+  ocamlfind ocamlopt -w -a -O2 model.mli model.ml driver.ml -o model.new 2>/dev/null || ocamlfind ocamlopt -w -a model.mli model.ml driver.ml -o model.new
+  mv -f model.new ../../../bin/model
+  cd ../..
+fi
+if [ ! -x ../bin/argvrec ] || [ ../harness/csrc/argvrec.c -nt ../bin/argvrec ]; then
+  gcc -O1 -o ../bin/argvrec.new ../harness/csrc/argvrec.c
+  mv -f ../bin/argvrec.new ../bin/argvrec
+fi
 echo build-ok
